@@ -104,6 +104,17 @@ class ASet:
         return f'ASet({sorted(self.s, key=repr)!r})'
 
 
+class AObj:
+    """an instance of a repository class under construction: attribute stores / loads; super().__init__(...) records the base-class arguments under 'args'"""
+
+    def __init__(self, cls):
+        self.cls = cls
+        self.attrs = {}
+
+    def __repr__(self):
+        return f'<{self.cls} {self.attrs!r}>'
+
+
 class AKeys(list):
     """the keys view of a dict (an ordered list that also supports the set operators)"""
 
@@ -425,6 +436,11 @@ class Interp:
                 raise RaiseSig('TypeError', ("'NoneType' object does not support item assignment",), t)
             else:
                 self.bad(t, 'subscript store on a non-container')
+        elif isinstance(t, ast.Attribute):
+            base = self.eval(t.value, env)
+            if not isinstance(base, AObj):
+                self.bad(t, 'attribute store outside the subset')
+            base.attrs[t.attr] = val
         elif isinstance(t, (ast.Tuple, ast.List)):
             items = self.iterate(val, t)
             if len(items) != len(t.elts):
@@ -607,7 +623,7 @@ class Interp:
                             pass
                 return ('extern', modname, orig)
             if e.id in ('len', 'next', 'iter', 'reversed', 'list', 'enumerate', 'isinstance', 'str', 'int', 'float', 'dict', 'tuple', 'range', 'bool', 'min', 'max', 'complex',
-                        'ord', 'chr', 'callable', 'object', 'type', 'getattr', 'hasattr'):
+                        'ord', 'chr', 'callable', 'object', 'type', 'getattr', 'hasattr', 'super'):
                 return ('builtin', e.id)
             self.bad(e, f'unknown name {e.id}')
         if isinstance(e, ast.Dict):
@@ -757,6 +773,11 @@ class Interp:
                 return ('hostattr', f'{base[1]}.{e.attr}')
             if isinstance(base, (ARegex, AList, ADict, str)) and not isinstance(getattr(e, 'ctx', None), ast.Store):
                 return ('bound', base, e.attr)
+            if isinstance(base, AObj):
+                if e.attr in base.attrs:
+                    return base.attrs[e.attr]
+                if isinstance(getattr(e, 'ctx', None), ast.Load):
+                    return ('bound', base, e.attr)
             if isinstance(base, tuple) and base and base[0] == 'partial' and e.attr in ('func', 'args', 'keywords'):
                 return base[1] if e.attr == 'func' else tuple(base[2]) if e.attr == 'args' else ADict()
             if isinstance(base, Sym):
@@ -1246,6 +1267,11 @@ class Interp:
         r = self.method_hook(base, m, args, e)
         if r is not NotImplemented:
             return r
+        if isinstance(base, tuple) and len(base) == 2 and base[0] == 'super' and isinstance(base[1], AObj):
+            if m == '__init__':
+                base[1].attrs['args'] = tuple(args)
+                return None
+            self.bad(e, f'super().{m}()')
         if base == ('builtin', 'dict') and m == 'fromkeys' and 1 <= len(args) <= 2:
             out = ADict({})
             for k in self.iterate(args[0], e):
@@ -1722,6 +1748,11 @@ class Interp:
             if isinstance(obj, Sym) and name == 'getattr' and len(args) > 2:
                 return Sym('attr', obj, attr)          # an opaque host object: whatever it has there is not a repository object
             self.bad(e, f'{name}() of an abstract value {obj!r}')
+        if name == 'super' and not args:
+            cur = getattr(self, 'current_self', None)
+            if cur is None:
+                self.bad(e, 'super() outside an evaluated constructor')
+            return ('super', cur)
         if name == 'object' and not args:
             self._obj_counter = getattr(self, '_obj_counter', 0) + 1
             return Sym('object', self._obj_counter)          # a fresh sentinel: identical only to itself
